@@ -45,7 +45,7 @@ Proof. exact kernels_tied_holds. Qed.
 Example C01_nonvacuous :
   let T := {| t_fields := [(0, EAgg SUM (EField 9)); (1, EAgg MAX (EField 1))]; t_groupby := Some [11];
               t_res := 2; t_ret := 100; t_where := Some 0%nat |} in
-  let q := {| q_fields := None; q_groupby := None; q_period := 0; q_asof := 0; q_until := 0; q_where := None; q_now := 20 |} in
+  let q := {| q_fields := None; q_groupby := None; q_period := 0; q_asof := 0; q_until := 0; q_where := None; q_now := 20; q_vis := None; q_limit := None |} in
   let p ts d v w := {| tp_ts := ts; tp_dims := [(11, VStr [d]); (12, VInt 5)];
                        tp_pt := {| p_vals := [(9, 1); (1, v)]; p_md := [] |}; tp_flags := [w] |} in
   map (fun r => (o_ts r, o_vals r)) (spec_rows T q [p 3 97 5 true; p 4 97 9 true; p 4 98 1 true; p 5 97 2 false; p 5 97 7 true])
